@@ -13,7 +13,7 @@ K('C17.a', property='C17', engine='symex', harness='C17/parid.cpp', entries=['k_
 _EIGTUS = ['src/Matrix/AMatrixDense.cpp', 'src/Matrix/AMatrix.cpp', 'src/Matrix/AMatrixSquare.cpp',
            'src/Matrix/MatrixSquareSymmetric.cpp', 'src/Matrix/MatrixSquareGeneral.cpp', 'src/Matrix/MatrixRectangular.cpp',
            'src/Basic/VectorHelper.cpp', 'src/Basic/AStringable.cpp']
-for _n, _tiers in ((2, ('quick', 'thorough')), (3, ('thorough',))):
+for _n, _tiers in ((2, ('quick', 'thorough')), (3, ('quick', 'thorough'))):
     K('C17.c.%d' % _n, property='C17', engine='symex', harness='C17/eigen.cpp', entries=['k_truncate', 'k_truncate_inplace'],
       tus=_EIGTUS, defines={'all': {'VF_NVAR': _n}}, tiers=_tiers,
       bounds={'quick': 'nvar = %d; arbitrary real symmetric input, arbitrary real eigenvalues and eigenvector components returned by the stub; output distinct from or identical to the input vector' % _n},
